@@ -184,7 +184,7 @@ func c20N(rng *rand.Rand) uint64 {
 }
 
 func c20Gen(rng *rand.Rand, tier string, w *bufio.Writer) {
-	n := 4000
+	n := 2500
 	if tier == "thorough" {
 		n = 120000
 	}
